@@ -90,8 +90,21 @@ pub fn well_formed(s: &Snap, expect_out: Option<usize>) -> Result<(), (String, S
 use crate::lp::{thickness, Thickness};
 use crate::snap::TreeSide;
 
+static DELTA_BITS: std::sync::atomic::AtomicU64 = std::sync::atomic::AtomicU64::new(0);
+
+/// Margin of the fat / thin / robustly-empty classification. 1e-6 by default; the checks of the pruning properties
+/// (C03, C06, C07, C11) set 1e-7 at start-up (the unchanged library holds with that margin in both tiers).
+pub fn set_delta(d: f64) {
+    DELTA_BITS.store(d.to_bits(), std::sync::atomic::Ordering::SeqCst);
+}
+
 pub fn delta() -> Q {
-    Q::from_f64(1e-6)
+    // VERIF_DELTA is an experiment knob (never set by the registered commands)
+    if let Some(d) = std::env::var("VERIF_DELTA").ok().and_then(|v| v.parse::<f64>().ok()) {
+        return Q::from_f64(d);
+    }
+    let b = DELTA_BITS.load(std::sync::atomic::Ordering::SeqCst);
+    if b == 0 { Q::from_f64(1e-6) } else { Q::from_f64(f64::from_bits(b)) }
 }
 
 /// Function comparison `after` vs `before` with the thin-region carve-out (DESIGN G1):
